@@ -281,6 +281,7 @@ package motion
 //@   modifies mp.snapshotRecorder.next, mp.snapshotRecorder.first, mp.snapshotRecorder.writes, mp.snapshotRecorder.stops, mp.snapshotRecorder.stopOK
 //@   ensures mp.wired()
 //@   ensures [C12,C17] mp.PInvS()
+//@   ensures [C12,C20] old(mp.StartSnapshot) && !old(mp.SnapshotRecording) ==> !mp.StartSnapshot
 //@   ensures [C17] old(mp.snapTidy()) && (mp.snapshotRecorder.stops != old(mp.snapshotRecorder.stops) ==> old(mp.snapshotRecorder.stopOK)) ==> mp.snapTidy()
 //@   ensures [C17] old(mp.snapTidy()) ==> mp.snapshotRecorder.starts == old(mp.snapshotRecorder.starts) + ((old(mp.StartSnapshot) && !old(mp.SnapshotRecording) && old(mp.snapshotRecorder.startOK)) ? 1 : 0)
 //@   ensures [C17] old(mp.snapTidy()) ==> mp.snapshotRecorder.writes == old(mp.snapshotRecorder.writes) + ((old(mp.SnapshotRecording) || (old(mp.StartSnapshot) && old(mp.snapshotRecorder.startOK))) ? 1 : 0)
